@@ -223,6 +223,17 @@ static void harmonics(unsigned long long& unit)
 		for(int j = 0; j < 16; j++) dirs.push_back({M_PI * i / 9.0, 2 * M_PI * j / 16.0 + 0.05});
 	for(double th : {1e-3, M_PI - 1e-3, 1e-6}) dirs.push_back({th, 2.2});
 	if(mc::shard0()) mc::alphabet("directions", dirs.size());
+	// Unsoeld's theorem: sum_m |Y_lm|^2 = (2l+1)/(4 pi) in every direction (fixes the normalisation of the scalar harmonics)
+	if(mc::mine(unit++))
+		for(int l = 0; l <= 12; l++)
+			for(auto& d : dirs)
+			{
+				long double sum = 0;
+				for(int m = -l; m <= l; m++) sum += std::norm(Spherical_Harmonics(l, m, d.th, d.ph));
+				g_cases++;
+				long double want = (2 * l + 1) / (4 * M_PIl);
+				if(!(fabsl(sum - want) <= 1e-13L * (2 * l + 1))) fail("harmonics", "l=" + std::to_string(l) + ",theta=" + mc::dec(d.th) + ",phi=" + mc::dec(d.ph), "unsoeld_sum_rule_violated", "sum_m |Y_lm|^2 = " + mc::dec((double)sum) + " expected " + mc::dec((double)want));
+			}
 	for(int l = 0; l <= 12; l++)
 		for(int m = -l; m <= l; m++)
 		{
